@@ -17,66 +17,26 @@ theorem concat_optList_some (s : String) : concat (optList (some s)) = s := by
   simp [optList, concat, String.append_empty]
 
 mutual
-/-- outside the F02a region the strings produced for a non-top node (with its tail) concatenate to
-the XDM text of the node followed by its tail -/
-theorem chunksOne_concat : ∀ (t : XTree), lateOne t = false →
-    concat (chunksOne false t) = concat (textsOne t ++ optList t.tail)
-  | .elem name nsmap attrib text kids tail, h => by
-    simp only [lateOne, Bool.or_eq_false_iff] at h
-    have ih := chunksKids_concat kids h.2
-    simp only [chunksOne, textsOne, XTree.tail, concat_append, Bool.false_eq_true, if_false]
-    rw [← ih]
-    have h1 : concat (optList tail) ++ concat (chunksKids kids) = concat (chunksKids kids) ++ concat (optList tail) := by
-      simpa using h.1
-    rw [String.append_assoc, String.append_assoc, h1]
-  | .comment s tail, _ => by simp [chunksOne, textsOne, XTree.tail]
-  | .pi t s tail, _ => by simp [chunksOne, textsOne, XTree.tail]
-theorem chunksKids_concat : ∀ (ts : List XTree), lateKids ts = false →
-    concat (chunksKids ts) = concat (textsKids ts)
-  | [], _ => rfl
-  | t :: ts, h => by
-    simp only [lateKids, Bool.or_eq_false_iff] at h
-    have h1 := chunksOne_concat t h.1
-    have h2 := chunksKids_concat ts h.2
-    simp only [chunksKids, textsKids, concat_append] at *
-    rw [h1, h2, String.append_assoc]
-end
-
-/-- `string_value_concat`, element form -/
-theorem elemStringValue_eq (t : XTree) (h : lateTail t = false) : elemStringValue t = stringValue t := by
-  cases t with
-  | elem name nsmap attrib text kids tail =>
-    simp only [lateTail] at h
-    have := chunksKids_concat kids h
-    simp [elemStringValue, stringValue, chunksOne, textsOne, concat_append, this]
-  | comment s tail => simp [elemStringValue, stringValue, chunksOne, textsOne]
-  | pi t s tail => simp [elemStringValue, stringValue, chunksOne, textsOne]
-
-theorem lateKids_false_of_lateOne (t : XTree) (h : lateOne t = false) : lateTail t = false := by
-  cases t with
-  | elem name nsmap attrib text kids tail =>
-    simp only [lateOne, Bool.or_eq_false_iff] at h
-    simpa [lateTail] using h.2
-  | comment s tail => rfl
-  | pi t s tail => rfl
-
-/-! ### the strings are always the same multiset -/
-
-mutual
-theorem chunksOne_perm : ∀ (t : XTree), (chunksOne false t).Perm (textsOne t ++ optList t.tail)
+/-- the strings produced for a non-top node (with its tail) are the XDM text chunks of the node
+followed by its tail — as lists, in order -/
+theorem chunksOne_eq : ∀ (t : XTree), chunksOne false t = textsOne t ++ optList t.tail
   | .elem name nsmap attrib text kids tail => by
-    have ih := chunksKids_perm kids
-    simp only [chunksOne, textsOne, XTree.tail, Bool.false_eq_true, if_false, List.append_assoc]
-    exact List.Perm.append_left _ ((List.perm_append_comm).trans (List.Perm.append_right _ ih))
+    simp [chunksOne, textsOne, XTree.tail, chunksKids_eq kids]
   | .comment s tail => by simp [chunksOne, textsOne, XTree.tail]
   | .pi t s tail => by simp [chunksOne, textsOne, XTree.tail]
-theorem chunksKids_perm : ∀ (ts : List XTree), (chunksKids ts).Perm (textsKids ts)
-  | [] => List.Perm.refl _
-  | t :: ts => by
-    have h1 := chunksOne_perm t
-    have h2 := chunksKids_perm ts
-    simp only [chunksKids, textsKids]
-    exact List.Perm.append h1 h2
+theorem chunksKids_eq : ∀ (ts : List XTree), chunksKids ts = textsKids ts
+  | [] => rfl
+  | t :: ts => by simp [chunksKids, textsKids, chunksOne_eq t, chunksKids_eq ts]
 end
+
+theorem chunksOne_top (t : XTree) : chunksOne true t = textsOne t := by
+  cases t with
+  | elem name nsmap attrib text kids tail => simp [chunksOne, textsOne, chunksKids_eq]
+  | comment s tail => simp [chunksOne, textsOne]
+  | pi t s tail => simp [chunksOne, textsOne]
+
+/-- `string_value_concat`, element form -/
+theorem elemStringValue_eq (t : XTree) : elemStringValue t = stringValue t := by
+  simp [elemStringValue, stringValue, chunksOne_top]
 
 end EPV.Builder
